@@ -33,6 +33,7 @@ def run(ctx):
     ctx.rule("R3.totals-sum-all", "allocation_totals reads bytes and count of every registry entry inside one loop over the registry", floor=2)
     ctx.rule("R4.delta", "span delta = current counters/totals minus the snapshot stored at span creation", floor=4)
     ctx.rule("R5.accumulate-total", "OperationMetrics::add_span and ::merge update every field exactly once on every path (no early exit), scalar totals by adding the matching operand, accumulators by add/merge of the matching operand", floor=10)
+    ctx.rule("R5.merge-occupied-only", "Report::merge adds the right-hand operation's metrics to an entry that already existed, and inserts a clone when it did not - never inserts AND merges the same operand (that counts it twice)", floor=1)
     ctx.rule("R4.sink", "both span kinds record through OperationMetrics::add_span exactly once per non-panicking drop", floor=2)
 
     impl_bodies = {}
@@ -405,3 +406,20 @@ def run(ctx):
                         ok = got == ADD_SPAN_ARG[n]
                         det += f"; arguments are parameters {sorted(got)} (expected {sorted(ADD_SPAN_ARG[n])})"
                 ctx.ob("R5.accumulate-total", f"{fname}.{n}", ok, b.loc(), det)
+
+    # ---------------- R5b Report::merge
+    rm = prog.one("report::Report::merge")
+    if rm is None:
+        ctx.missing("R5.merge-occupied-only", "Report::merge")
+    else:
+        bodies = [rm] + prog.closures_of(rm)
+        merges = [(bd, bb, t) for bd in bodies for bb, t in bd.calls() if t["callee"].get("method") == "merge" and "OperationMetrics" in callee_key(t["callee"]) + t["callee"].get("full", "")]
+        bad = []
+        for bd, bb, t in merges:
+            ctx.fn(bd)
+            sl = Slice(bd).run(t["args"][0])
+            names = {k.split("::")[-1] for k, _b, _t in sl["calls"]}
+            if names & {"or_insert_with", "or_insert", "or_default", "insert", "insert_entry", "or_insert_with_key"}:
+                bad.append(f"merge applied to the entry returned by {sorted(names & {'or_insert_with', 'or_insert', 'or_default', 'insert', 'insert_entry'})} at {bd.loc(t['span'])}")
+        ctx.ob("R5.merge-occupied-only", "Report::merge", bool(merges) and not bad, rm.loc(),
+               f"merge sites {len(merges)}; on a just-inserted entry: {bad or 'none'}")
